@@ -866,9 +866,13 @@ func (f *fragment) unprotectedClearRow(rowID uint64) (changed bool, err error) {
 		// Technically we could bypass the Get() call and only
 		// call Remove(), but the Get() gives us the ability
 		// to return true if any existing data was removed.
+		// An empty container (left behind by a clear of bits that were
+		// not set) is removed as well, but removing it changes nothing.
 		if cont := f.storage.Containers.Get(k); cont != nil {
 			f.storage.Containers.Remove(k)
-			changed = true
+			if cont.N() > 0 {
+				changed = true
+			}
 		}
 	}
 
